@@ -98,6 +98,7 @@ def tla_scn(scn: dict) -> dict:
         "lazy": bool(s["lazy"]),
         "cache": bool(s["cache"]),
         "maxloop": s["maxloop"],
+        "debug": bool(s.get("debug")),
         # real-time runs: K = ticks per simulation step (rt_factor * time_resolution seconds), strict flag, instant = all step durations zero
         "rt": ({"on": True, "K": int(round(s["rt"]["rt_factor"] * s["rt"].get("time_resolution", 1.0) * 1024)), "strict": bool(s["rt"].get("strict")),
                 "instant": bool(s["rt"].get("instant"))} if s.get("rt") else {"on": False, "K": 0, "strict": False, "instant": False}),
